@@ -370,5 +370,50 @@ template<class T> struct SameFp { bool operator()(T a, T b) const { return same_
 template<class T> struct SameValue { bool operator()(T a, T b) const { return same_value(a, b); } };
 template<class T> struct IntEq { bool operator()(T a, T b) const { return a == b; } };
 
+// Exhaustive sweep over all 2^32 float bit patterns (thorough tier): op over vectors of consecutive patterns, every lane
+// compared with the model.  VK_SWEEP_BITS (env) limits the sweep to the top 2^k patterns of each 2^(32-k) stride for testing.
+template<class V, class R, class Op, class Model, class Eq>
+inline void fsweep32(const char* prop, const char* type, const char* opname, Op op, Model model, Eq eq) {
+    typedef typename V::scalar T;
+    static_assert(sizeof(T) == 4, "sweep is for 32-bit floats");
+    const unsigned W = V::width;
+    if (!begin_cell(prop, type, opname)) return;
+    Cell& c = cell();
+    unsigned bits = 32;
+    if (const char* e = std::getenv("VK_SWEEP_BITS")) bits = (unsigned)std::atoi(e);
+    const uint64_t total = 1ull << bits;
+    const uint64_t stride = 1ull << (32 - bits);       // with bits < 32: every stride-th pattern (covers all exponents)
+    for (uint64_t base = 0; base < total && c.traps < 64; base += W) {
+        std::array<T, V::width> a;
+        for (unsigned i = 0; i < W; ++i) a[i] = ffrom<T>((uint32_t)(((base + i) % total) * stride));
+        std::array<R, V::width> res;
+        volatile bool ok = false;
+        VK_GUARDED(fcls(a[0]), ("a=" + hex(a[0])), { res = op(V(a)); ok = true; });
+        c.cases++;
+        if ((base & 0xFFFFF) == 0) { c.cls_add(fcls(a[0])); if (c.cases <= 2) add_sample(std::string(opname) + " sweep from " + hex(a[0])); }
+        if (!ok) continue;
+        for (unsigned i = 0; i < W; ++i) {
+            R exp;
+            if (!model(a[i], exp)) continue;
+            c.lanes++;
+            if (!eq(res[i], exp)) viol("value", fcls(a[i]), (int)i, "a=" + hex(a[i]), hex(res[i]), hex(exp));
+        }
+    }
+    end_cell();
+}
+template<class T> struct IsF32 : std::integral_constant<bool, sizeof(T) == 4> {};
+// the 2^32 sweeps run for the widest float vector of the configuration and for the 128-bit one (the SSE-level emulations)
+template<class V> struct SweepThis : std::integral_constant<bool, sizeof(typename V::scalar) == 4 && (
+#if defined(AVEL_AVX512F)
+    V::width == 16 || V::width == 4
+#elif defined(AVEL_AVX2)
+    V::width == 8 || V::width == 4
+#elif defined(AVEL_SSE2)
+    V::width == 4
+#else
+    V::width == 1
+#endif
+)> {};
+
 } // namespace vk
 #endif
